@@ -148,7 +148,7 @@ def run_case(case, ctx):
     mode = case["mode"]
     ref = common.reference(case)
     ctx.count(f"{mode}:input:{ref['status']}")
-    if ref["status"] in ("short", "ragged-eof"):
+    if ref["status"] not in ("ok", "noncanonical"):
         return
     if ref["status"] == "noncanonical" and mode != "parsed-raw":
         return
